@@ -371,6 +371,8 @@ def run(fx, tier):
     # an open client), or the new connection's Receive Maximum is never applied (shared with C02; seed C07-f)
     from c02 import stream_loss_rules
     stream_loss_rules(fx, v, 'C07')
+    from c02 import queue_purge_rule
+    queue_purge_rule(fx, v, 'C07')
     v.expect_min('R-OWN', 20, 'writers + callers × TUs')
     v.expect_min('R-DOM', 30, 'do_write/throttled_op_done/resend shape × TUs')
     v.expect_min('R-FLOW', 60, 'send and free sites on paths')
